@@ -617,4 +617,298 @@ example :
     8 * (101 / 100 : ℚ) * (1 / 10 + 1 / 4) ^ 2 < norm2 (-1 / 20, 1213 / 120) := by
   decide +kernel
 
+/-! ### noisy peaks: outliers are rejected by the second round, and the selection is exactly the inliers -/
+
+/-- half-cell rejection along the second index -/
+theorem half_cell_rejected_second (zero a b e : V2) (j : ℤ) (x tol eta : ℚ)
+    (hd : det2 a b ≠ 0) (heta : |det2 a e / det2 a b| ≤ eta) (heta2 : eta ≤ 1 / 2)
+    (hfar : tol ^ 2 * rmax 1 (rabs ((j : ℚ) + 1 / 2 + det2 a e / det2 a b)) ≤ (1 / 2 - eta) ^ 2 * norm2 b) :
+    isMatched a b tol
+      ((getIndices zero a b (vadd (calcCoord zero a b (x, (j : ℚ) + 1 / 2)) e)).getD (0, 0)) = false := by
+  simp only [indices_displaced zero a b e _ _ hd, Option.getD_some]
+  apply far_not_matched_second
+  simp only []
+  have hf := half_cell_far j (det2 a e / det2 a b) eta heta
+  have hnb := norm2_nonneg b
+  have h0 : 0 ≤ 1 / 2 - eta := by linarith
+  have hsq : (1 / 2 - eta) ^ 2 ≤
+      ((j : ℚ) + 1 / 2 + det2 a e / det2 a b - (roundHalfEven ((j : ℚ) + 1 / 2 + det2 a e / det2 a b) : ℚ)) ^ 2 := by
+    rw [← sq_abs ((j : ℚ) + 1 / 2 + det2 a e / det2 a b - _)]
+    exact pow_le_pow_left₀ h0 hf 2
+  calc _ ≤ (1 / 2 - eta) ^ 2 * norm2 b := hfar
+    _ ≤ _ := mul_le_mul_of_nonneg_right hsq hnb
+
+theorem norm2_pos_of_det (a b : V2) (hd : det2 a b ≠ 0) : 0 < norm2 a ∧ 0 < norm2 b := by
+  have hpos : 0 < det2 a b ^ 2 := by positivity
+  have h := det2_sq_le a b
+  have ha := norm2_nonneg a
+  have hb := norm2_nonneg b
+  constructor
+  · rcases lt_or_eq_of_le ha with h1 | h1
+    · exact h1
+    · rw [← h1, zero_mul] at h; linarith
+  · rcases lt_or_eq_of_le hb with h1 | h1
+    · exact h1
+    · rw [← h1, mul_zero] at h; linarith
+
+/-- **half-cell outliers are rejected by any regular lattice they are displaced from by a bounded amount**
+(`κ = ‖a‖²‖b‖²/det²`, `E2 ≥ ‖e‖²`, `η² ‖a‖² ≥ κ E2`): first index -/
+theorem half_cell_rejected_kappa (zero a b e : V2) (i : ℤ) (y tol kappa E2 eta : ℚ)
+    (hd : det2 a b ≠ 0) (hk : norm2 a * norm2 b ≤ kappa * det2 a b ^ 2) (he : norm2 e ≤ E2) (hkp : 0 ≤ kappa)
+    (heta0 : 0 ≤ eta) (heta2 : eta ≤ 1 / 2) (heta : kappa * E2 ≤ eta ^ 2 * norm2 a)
+    (hfar : tol ^ 2 * max 1 (|(i : ℚ) + 1 / 2| + eta) ≤ (1 / 2 - eta) ^ 2 * norm2 a) :
+    isMatched a b tol
+      ((getIndices zero a b (vadd (calcCoord zero a b ((i : ℚ) + 1 / 2, y)) e)).getD (0, 0)) = false := by
+  obtain ⟨s1, _⟩ := index_shift_sq_le_kappa a b e kappa hd hk
+  obtain ⟨hna, _⟩ := norm2_pos_of_det a b hd
+  have hke : kappa * norm2 e ≤ kappa * E2 := mul_le_mul_of_nonneg_left he hkp
+  have hsq : (det2 e b / det2 a b) ^ 2 ≤ eta ^ 2 := by
+    have : (det2 e b / det2 a b) ^ 2 * norm2 a ≤ eta ^ 2 * norm2 a := by linarith
+    exact le_of_mul_le_mul_right this hna
+  have habs : |det2 e b / det2 a b| ≤ eta := abs_le_of_sq_le_sq' hsq heta0 |> abs_le.mpr
+  apply half_cell_rejected zero a b e i y tol eta hd habs heta2
+  have hr := rmax_rabs_le ((i : ℚ) + 1 / 2 + det2 e b / det2 a b) ((i : ℚ) + 1 / 2) eta (by
+    rw [add_sub_cancel_left]; exact habs)
+  have ht : 0 ≤ tol ^ 2 := sq_nonneg _
+  calc _ ≤ tol ^ 2 * max 1 (|(i : ℚ) + 1 / 2| + eta) := mul_le_mul_of_nonneg_left hr ht
+    _ ≤ _ := hfar
+
+/-- … and second index -/
+theorem half_cell_rejected_second_kappa (zero a b e : V2) (j : ℤ) (x tol kappa E2 eta : ℚ)
+    (hd : det2 a b ≠ 0) (hk : norm2 a * norm2 b ≤ kappa * det2 a b ^ 2) (he : norm2 e ≤ E2) (hkp : 0 ≤ kappa)
+    (heta0 : 0 ≤ eta) (heta2 : eta ≤ 1 / 2) (heta : kappa * E2 ≤ eta ^ 2 * norm2 b)
+    (hfar : tol ^ 2 * max 1 (|(j : ℚ) + 1 / 2| + eta) ≤ (1 / 2 - eta) ^ 2 * norm2 b) :
+    isMatched a b tol
+      ((getIndices zero a b (vadd (calcCoord zero a b (x, (j : ℚ) + 1 / 2)) e)).getD (0, 0)) = false := by
+  obtain ⟨_, s2⟩ := index_shift_sq_le_kappa a b e kappa hd hk
+  obtain ⟨_, hnb⟩ := norm2_pos_of_det a b hd
+  have hke : kappa * norm2 e ≤ kappa * E2 := mul_le_mul_of_nonneg_left he hkp
+  have hsq : (det2 a e / det2 a b) ^ 2 ≤ eta ^ 2 := by
+    have : (det2 a e / det2 a b) ^ 2 * norm2 b ≤ eta ^ 2 * norm2 b := by linarith
+    exact le_of_mul_le_mul_right this hnb
+  have habs : |det2 a e / det2 a b| ≤ eta := abs_le_of_sq_le_sq' hsq heta0 |> abs_le.mpr
+  apply half_cell_rejected_second zero a b e j x tol eta hd habs heta2
+  have hr := rmax_rabs_le ((j : ℚ) + 1 / 2 + det2 a e / det2 a b) ((j : ℚ) + 1 / 2) eta (by
+    rw [add_sub_cancel_left]; exact habs)
+  have ht : 0 ≤ tol ^ 2 := sq_nonneg _
+  calc _ ≤ tol ^ 2 * max 1 (|(j : ℚ) + 1 / 2| + eta) := mul_le_mul_of_nonneg_left hr ht
+    _ ≤ _ := hfar
+
+/-- a position within `r` (per coordinate) of node `(i, j)` of a regular lattice is matched with `(i, j)` -/
+theorem near_node_kept (z1 a1 b1 pos : V2) (i j : ℤ) (tol kappa r : ℚ) (htol : 0 < tol)
+    (hd1 : det2 a1 b1 ≠ 0) (hk : norm2 a1 * norm2 b1 ≤ kappa * det2 a1 b1 ^ 2) (hkp : 0 ≤ kappa)
+    (h1 : |pos.1 - (calcCoord z1 a1 b1 ((i : ℚ), (j : ℚ))).1| ≤ r)
+    (h2 : |pos.2 - (calcCoord z1 a1 b1 ((i : ℚ), (j : ℚ))).2| ≤ r)
+    (ht : 4 * kappa * r ^ 2 < tol ^ 2) (ha : 8 * kappa * r ^ 2 < norm2 a1) (hb : 8 * kappa * r ^ 2 < norm2 b1) :
+    isMatched a1 b1 tol ((getIndices z1 a1 b1 pos).getD (0, 0)) = true ∧
+      (roundHalfEven ((getIndices z1 a1 b1 pos).getD (0, 0)).1, roundHalfEven ((getIndices z1 a1 b1 pos).getD (0, 0)).2) = (i, j) := by
+  set f := calcCoord z1 a1 b1 ((i : ℚ), (j : ℚ)) with hf
+  set e : V2 := (pos.1 - f.1, pos.2 - f.2) with he
+  have hpos : pos = vadd f e := by
+    unfold vadd; rw [he]; apply Prod.ext <;> simp
+  have hE : norm2 e ≤ 2 * r ^ 2 := by
+    have q1 : e.1 ^ 2 ≤ r ^ 2 := by rw [← sq_abs e.1]; exact pow_le_pow_left₀ (abs_nonneg _) h1 2
+    have q2 : e.2 ^ 2 ≤ r ^ 2 := by rw [← sq_abs e.2]; exact pow_le_pow_left₀ (abs_nonneg _) h2 2
+    unfold norm2; nlinarith
+  have key := inlier_matched_kappa z1 a1 b1 e i j tol kappa (2 * r ^ 2) htol hd1 hk hE hkp
+    (by linarith) (by linarith) (by linarith)
+  simp only [] at key
+  rw [← hf, ← hpos] at key
+  exact key
+
+/-- a position within `r` (per coordinate) of the half-cell position `(i + 1/2, y)` of a regular lattice is rejected -/
+theorem near_half_cell_rejected (z1 a1 b1 pos : V2) (i : ℤ) (y tol kappa r eta : ℚ)
+    (hd1 : det2 a1 b1 ≠ 0) (hk : norm2 a1 * norm2 b1 ≤ kappa * det2 a1 b1 ^ 2) (hkp : 0 ≤ kappa)
+    (h1 : |pos.1 - (calcCoord z1 a1 b1 ((i : ℚ) + 1 / 2, y)).1| ≤ r)
+    (h2 : |pos.2 - (calcCoord z1 a1 b1 ((i : ℚ) + 1 / 2, y)).2| ≤ r)
+    (heta0 : 0 ≤ eta) (heta2 : eta ≤ 1 / 2) (heta : 2 * kappa * r ^ 2 ≤ eta ^ 2 * norm2 a1)
+    (hfar : tol ^ 2 * max 1 (|(i : ℚ) + 1 / 2| + eta) ≤ (1 / 2 - eta) ^ 2 * norm2 a1) :
+    isMatched a1 b1 tol ((getIndices z1 a1 b1 pos).getD (0, 0)) = false := by
+  set f := calcCoord z1 a1 b1 ((i : ℚ) + 1 / 2, y) with hf
+  set e : V2 := (pos.1 - f.1, pos.2 - f.2) with he
+  have hpos : pos = vadd f e := by
+    unfold vadd; rw [he]; apply Prod.ext <;> simp
+  have hE : norm2 e ≤ 2 * r ^ 2 := by
+    have q1 : e.1 ^ 2 ≤ r ^ 2 := by rw [← sq_abs e.1]; exact pow_le_pow_left₀ (abs_nonneg _) h1 2
+    have q2 : e.2 ^ 2 ≤ r ^ 2 := by rw [← sq_abs e.2]; exact pow_le_pow_left₀ (abs_nonneg _) h2 2
+    unfold norm2; nlinarith
+  have key := half_cell_rejected_kappa z1 a1 b1 e i y tol kappa (2 * r ^ 2) eta hd1 hk hE hkp heta0 heta2
+    (by linarith) hfar
+  rw [← hf, ← hpos] at key
+  exact key
+
+/-- … half a cell off along the second index -/
+theorem near_half_cell_rejected_second (z1 a1 b1 pos : V2) (j : ℤ) (x tol kappa r eta : ℚ)
+    (hd1 : det2 a1 b1 ≠ 0) (hk : norm2 a1 * norm2 b1 ≤ kappa * det2 a1 b1 ^ 2) (hkp : 0 ≤ kappa)
+    (h1 : |pos.1 - (calcCoord z1 a1 b1 (x, (j : ℚ) + 1 / 2)).1| ≤ r)
+    (h2 : |pos.2 - (calcCoord z1 a1 b1 (x, (j : ℚ) + 1 / 2)).2| ≤ r)
+    (heta0 : 0 ≤ eta) (heta2 : eta ≤ 1 / 2) (heta : 2 * kappa * r ^ 2 ≤ eta ^ 2 * norm2 b1)
+    (hfar : tol ^ 2 * max 1 (|(j : ℚ) + 1 / 2| + eta) ≤ (1 / 2 - eta) ^ 2 * norm2 b1) :
+    isMatched a1 b1 tol ((getIndices z1 a1 b1 pos).getD (0, 0)) = false := by
+  set f := calcCoord z1 a1 b1 (x, (j : ℚ) + 1 / 2) with hf
+  set e : V2 := (pos.1 - f.1, pos.2 - f.2) with he
+  have hpos : pos = vadd f e := by
+    unfold vadd; rw [he]; apply Prod.ext <;> simp
+  have hE : norm2 e ≤ 2 * r ^ 2 := by
+    have q1 : e.1 ^ 2 ≤ r ^ 2 := by rw [← sq_abs e.1]; exact pow_le_pow_left₀ (abs_nonneg _) h1 2
+    have q2 : e.2 ^ 2 ≤ r ^ 2 := by rw [← sq_abs e.2]; exact pow_le_pow_left₀ (abs_nonneg _) h2 2
+    unfold norm2; nlinarith
+  have key := half_cell_rejected_second_kappa z1 a1 b1 e j x tol kappa (2 * r ^ 2) eta hd1 hk hE hkp heta0 heta2
+    (by linarith) hfar
+  rw [← hf, ← hpos] at key
+  exact key
+
+/-- the first fit of a valid match on noisy node peaks and its error at every position (setup of `noisy_selection`) -/
+theorem noisy_first_fit (peaks : List Peak) (z a b z0 a0 b0 z2 a2 b2 : V2) (tol mw eps : ℚ) (mm : ℤ)
+    (m : List Bool) (idx : List (ℤ × ℤ)) (node : Peak → Option (ℤ × ℤ))
+    (_htol : 0 < tol) (hmw : 0 ≤ mw)
+    (hnoise : ∀ p ∈ peaks, ∀ i j, node p = some (i, j) →
+      |p.pos.1 - (calcCoord z a b ((i : ℚ), (j : ℚ))).1| ≤ eps ∧
+      |p.pos.2 - (calcCoord z a b ((i : ℚ), (j : ℚ))).2| ≤ eps)
+    (h1 : ∀ p ∈ peaks, mw ≤ p.elev → isMatched a0 b0 tol (ix z0 a0 b0 p) = true →
+      node p = some (rix z0 a0 b0 p))
+    (hvalid : fastmatch peaks z0 a0 b0 tol mw mm = .valid z2 a2 b2 m idx) :
+    ∃ z1 a1 b1 : V2, det2 a1 b1 ≠ 0 ∧
+      m = peaks.map (selBy (fun p => Gen.fm_weight_ok p.elev mw) z1 a1 b1 tol) ∧
+      idx = (peaks.filter (selBy (fun p => Gen.fm_weight_ok p.elev mw) z1 a1 b1 tol)).map (rix z1 a1 b1) ∧
+      0 < (normalOf (designOf (peaks.filter (selBy (fun p => Gen.fm_weight_ok p.elev mw) z0 a0 b0 tol)) (rix z0 a0 b0))).det ∧
+      (∀ i j : ℚ,
+        (normalOf (designOf (peaks.filter (selBy (fun p => Gen.fm_weight_ok p.elev mw) z0 a0 b0 tol)) (rix z0 a0 b0))).det
+            * ((calcCoord z1 a1 b1 (i, j)).1 - (calcCoord z a b (i, j)).1) ^ 2
+          ≤ (normalOf (designOf (peaks.filter (selBy (fun p => Gen.fm_weight_ok p.elev mw) z0 a0 b0 tol)) (rix z0 a0 b0))).adjq 1 i j * (eps ^ 2 * (normalOf (designOf (peaks.filter (selBy (fun p => Gen.fm_weight_ok p.elev mw) z0 a0 b0 tol)) (rix z0 a0 b0))).s1) ∧
+        (normalOf (designOf (peaks.filter (selBy (fun p => Gen.fm_weight_ok p.elev mw) z0 a0 b0 tol)) (rix z0 a0 b0))).det
+            * ((calcCoord z1 a1 b1 (i, j)).2 - (calcCoord z a b (i, j)).2) ^ 2
+          ≤ (normalOf (designOf (peaks.filter (selBy (fun p => Gen.fm_weight_ok p.elev mw) z0 a0 b0 tol)) (rix z0 a0 b0))).adjq 1 i j * (eps ^ 2 * (normalOf (designOf (peaks.filter (selBy (fun p => Gen.fm_weight_ok p.elev mw) z0 a0 b0 tol)) (rix z0 a0 b0))).s1)) := by
+  set W : Peak → Bool := fun p => Gen.fm_weight_ok p.elev mw with hWdef
+  have hW : ∀ p, W p = true ↔ mw ≤ p.elev := fun p => (operators p.elev mw 0 0 0 0).1
+  obtain ⟨z1, a1, b1, _hd0, hfit, hd1, hm, hidx, _⟩ :=
+    fastmatch_valid_form peaks z0 a0 b0 tol mw mm z2 a2 b2 m idx hvalid
+  set S1 := selBy W z0 a0 b0 tol with hS1
+  -- members of the round-one selection
+  have hS1mem : ∀ p ∈ peaks.filter S1, p ∈ peaks ∧ mw ≤ p.elev ∧ node p = some (rix z0 a0 b0 p) := by
+    intro p hp
+    obtain ⟨hpp, hs⟩ := List.mem_filter.mp hp
+    rw [hS1] at hs
+    unfold selBy at hs
+    rw [Bool.and_eq_true] at hs
+    have hw := (hW p).mp hs.1
+    exact ⟨hpp, hw, h1 p hpp hw hs.2⟩
+  have hwn : ∀ p ∈ peaks.filter S1, 0 ≤ p.elev := fun p hp => le_trans hmw (hS1mem p hp).2.1
+  have hnn : ∀ p ∈ peaks.filter S1,
+      |p.pos.1 - (z.1 + (((rix z0 a0 b0 p).1 : ℤ) : ℚ) * a.1 + (((rix z0 a0 b0 p).2 : ℤ) : ℚ) * b.1)| ≤ eps ∧
+      |p.pos.2 - (z.2 + (((rix z0 a0 b0 p).1 : ℤ) : ℚ) * a.2 + (((rix z0 a0 b0 p).2 : ℤ) : ℚ) * b.2)| ≤ eps := by
+    intro p hp
+    obtain ⟨hpp, _, hn⟩ := hS1mem p hp
+    have := hnoise p hpp _ _ hn
+    unfold calcCoord vadd smul at this
+    simp only [] at this
+    have e : ∀ q r s t u : ℚ, q + (r * s + t * u) = q + r * s + t * u := by intros; ring
+    rw [e, e] at this
+    exact this
+  have herr := fit_error_at_node peaks S1 (rix z0 a0 b0) z a b z1 a1 b1 eps hfit hwn hnn
+  -- the design has rank 3 because the fit exists
+  have hdetne : (normalOf (designOf (peaks.filter S1) (rix z0 a0 b0))).det ≠ 0 := by
+    unfold weightedOptimize at hfit
+    rw [obsFor_eq, obsFor_eq] at hfit
+    split at hfit
+    · rename_i zy ay by_ zx ax bx hy hx
+      unfold solveNormal at hy
+      simp only [] at hy
+      split at hy
+      · exact absurd hy (by simp)
+      · rename_i hne
+        unfold designOf
+        rw [det_indep_t (peaks.filter S1) (fun p => ((rix z0 a0 b0 p).1 : ℚ)) (fun p => ((rix z0 a0 b0 p).2 : ℚ))
+          (fun p => p.elev) (fun _ => 0) (fun p => p.pos.1)]
+        exact hne
+    · exact absurd hfit (by simp)
+  have hdetpos : 0 < (normalOf (designOf (peaks.filter S1) (rix z0 a0 b0))).det := by
+    apply lt_of_le_of_ne _ (Ne.symm hdetne)
+    apply det_nonneg
+    intro o ho
+    unfold designOf at ho
+    obtain ⟨p, hp, rfl⟩ := List.mem_map.mp ho
+    exact hwn p hp
+  exact ⟨z1, a1, b1, hd1, hm, hidx, hdetpos, herr⟩
+
+/-- **Noisy peaks, both rounds: which peaks the final selection contains.**  Setting of `noisy_inliers_kept`
+(node peaks within `ε` per coordinate of their nodes, round one selects only node peaks with their true indices,
+the match is valid).  With the first fit `(z1, a1, b1)`, its conditioning `κ`, and for each position a bound `d` on
+the fit error there (`vᵀ adj(N) v ε² Σw ≤ det N · d²`, `C06.noise_propagation`):
+* a strong node peak with `4κ(ε+d)² < tol²`, `8κ(ε+d)² < min(‖a1‖², ‖b1‖²)` **is selected** with its true indices;
+* a peak within `ε` of a position half a cell off along `a` (`(i + 1/2, y)`, any `y`) with
+  `2κ(ε+d)² ≤ η²‖a1‖²`, `η ≤ 1/2`, `tol² max(1, |i + 1/2| + η) ≤ (1/2 - η)²‖a1‖²` **is not selected**; likewise along `b`;
+* weak peaks are never selected (`valid_invariants`).
+When every peak falls in one of these classes the selection is exactly the set of strong inliers. -/
+theorem noisy_selection (peaks : List Peak) (z a b z0 a0 b0 z2 a2 b2 : V2) (tol mw eps : ℚ) (mm : ℤ)
+    (m : List Bool) (idx : List (ℤ × ℤ)) (node : Peak → Option (ℤ × ℤ))
+    (htol : 0 < tol) (hmw : 0 ≤ mw)
+    (hnoise : ∀ p ∈ peaks, ∀ i j, node p = some (i, j) →
+      |p.pos.1 - (calcCoord z a b ((i : ℚ), (j : ℚ))).1| ≤ eps ∧
+      |p.pos.2 - (calcCoord z a b ((i : ℚ), (j : ℚ))).2| ≤ eps)
+    (h1 : ∀ p ∈ peaks, mw ≤ p.elev → isMatched a0 b0 tol (ix z0 a0 b0 p) = true →
+      node p = some (rix z0 a0 b0 p))
+    (hvalid : fastmatch peaks z0 a0 b0 tol mw mm = .valid z2 a2 b2 m idx) :
+    ∃ z1 a1 b1 : V2, det2 a1 b1 ≠ 0 ∧
+      m = peaks.map (selBy (fun p => Gen.fm_weight_ok p.elev mw) z1 a1 b1 tol) ∧
+      (∀ p ∈ peaks, ∀ (i j : ℤ) (kappa d : ℚ), node p = some (i, j) → mw ≤ p.elev → 0 ≤ kappa → 0 ≤ d →
+        norm2 a1 * norm2 b1 ≤ kappa * det2 a1 b1 ^ 2 →
+        (normalOf (designOf (peaks.filter (selBy (fun p => Gen.fm_weight_ok p.elev mw) z0 a0 b0 tol)) (rix z0 a0 b0))).adjq 1 i j * (eps ^ 2 * (normalOf (designOf (peaks.filter (selBy (fun p => Gen.fm_weight_ok p.elev mw) z0 a0 b0 tol)) (rix z0 a0 b0))).s1) ≤ (normalOf (designOf (peaks.filter (selBy (fun p => Gen.fm_weight_ok p.elev mw) z0 a0 b0 tol)) (rix z0 a0 b0))).det * d ^ 2 →
+        4 * kappa * (eps + d) ^ 2 < tol ^ 2 → 8 * kappa * (eps + d) ^ 2 < norm2 a1 → 8 * kappa * (eps + d) ^ 2 < norm2 b1 →
+        selBy (fun p => Gen.fm_weight_ok p.elev mw) z1 a1 b1 tol p = true ∧ rix z1 a1 b1 p = (i, j)) ∧
+      (∀ p ∈ peaks, ∀ (i : ℤ) (y kappa d eta : ℚ),
+        |p.pos.1 - (calcCoord z a b ((i : ℚ) + 1 / 2, y)).1| ≤ eps → |p.pos.2 - (calcCoord z a b ((i : ℚ) + 1 / 2, y)).2| ≤ eps →
+        0 ≤ kappa → 0 ≤ d → norm2 a1 * norm2 b1 ≤ kappa * det2 a1 b1 ^ 2 →
+        (normalOf (designOf (peaks.filter (selBy (fun p => Gen.fm_weight_ok p.elev mw) z0 a0 b0 tol)) (rix z0 a0 b0))).adjq 1 ((i : ℚ) + 1 / 2) y * (eps ^ 2 * (normalOf (designOf (peaks.filter (selBy (fun p => Gen.fm_weight_ok p.elev mw) z0 a0 b0 tol)) (rix z0 a0 b0))).s1) ≤ (normalOf (designOf (peaks.filter (selBy (fun p => Gen.fm_weight_ok p.elev mw) z0 a0 b0 tol)) (rix z0 a0 b0))).det * d ^ 2 →
+        0 ≤ eta → eta ≤ 1 / 2 → 2 * kappa * (eps + d) ^ 2 ≤ eta ^ 2 * norm2 a1 →
+        tol ^ 2 * max 1 (|(i : ℚ) + 1 / 2| + eta) ≤ (1 / 2 - eta) ^ 2 * norm2 a1 →
+        selBy (fun p => Gen.fm_weight_ok p.elev mw) z1 a1 b1 tol p = false) ∧
+      (∀ p ∈ peaks, ∀ (j : ℤ) (x kappa d eta : ℚ),
+        |p.pos.1 - (calcCoord z a b (x, (j : ℚ) + 1 / 2)).1| ≤ eps → |p.pos.2 - (calcCoord z a b (x, (j : ℚ) + 1 / 2)).2| ≤ eps →
+        0 ≤ kappa → 0 ≤ d → norm2 a1 * norm2 b1 ≤ kappa * det2 a1 b1 ^ 2 →
+        (normalOf (designOf (peaks.filter (selBy (fun p => Gen.fm_weight_ok p.elev mw) z0 a0 b0 tol)) (rix z0 a0 b0))).adjq 1 x ((j : ℚ) + 1 / 2) * (eps ^ 2 * (normalOf (designOf (peaks.filter (selBy (fun p => Gen.fm_weight_ok p.elev mw) z0 a0 b0 tol)) (rix z0 a0 b0))).s1) ≤ (normalOf (designOf (peaks.filter (selBy (fun p => Gen.fm_weight_ok p.elev mw) z0 a0 b0 tol)) (rix z0 a0 b0))).det * d ^ 2 →
+        0 ≤ eta → eta ≤ 1 / 2 → 2 * kappa * (eps + d) ^ 2 ≤ eta ^ 2 * norm2 b1 →
+        tol ^ 2 * max 1 (|(j : ℚ) + 1 / 2| + eta) ≤ (1 / 2 - eta) ^ 2 * norm2 b1 →
+        selBy (fun p => Gen.fm_weight_ok p.elev mw) z1 a1 b1 tol p = false) := by
+  obtain ⟨z1, a1, b1, hd1, hm, _, hdetpos, herr⟩ :=
+    noisy_first_fit peaks z a b z0 a0 b0 z2 a2 b2 tol mw eps mm m idx node htol hmw hnoise h1 hvalid
+  have hW : ∀ p : Peak, Gen.fm_weight_ok p.elev mw = true ↔ mw ≤ p.elev := fun p => (operators p.elev mw 0 0 0 0).1
+  -- from the determinant form of the bound to |x| ≤ d
+  have abs_le_d : ∀ (R d x : ℚ), 0 ≤ d →
+      (normalOf (designOf (peaks.filter (selBy (fun p => Gen.fm_weight_ok p.elev mw) z0 a0 b0 tol)) (rix z0 a0 b0))).det * x ^ 2 ≤ R → R ≤ (normalOf (designOf (peaks.filter (selBy (fun p => Gen.fm_weight_ok p.elev mw) z0 a0 b0 tol)) (rix z0 a0 b0))).det * d ^ 2 → |x| ≤ d := by
+    intro R d x hd hx hR
+    have h3 : x ^ 2 ≤ d ^ 2 := le_of_mul_le_mul_left (le_trans hx hR) hdetpos
+    exact abs_le_of_sq_le_sq' h3 hd |> abs_le.mpr
+  -- triangle inequality per coordinate
+  have tri : ∀ (u t f r1 r2 : ℚ), |u - t| ≤ r1 → |f - t| ≤ r2 → |u - f| ≤ r1 + r2 := by
+    intro u t f r1 r2 h1' h2'
+    have : u - f = (u - t) - (f - t) := by ring
+    rw [this]
+    exact le_trans (abs_sub _ _) (add_le_add h1' h2')
+  refine ⟨z1, a1, b1, hd1, hm, ?_, ?_, ?_⟩
+  · intro p hp i j kappa d hn hw hkp hd hk hbound ht ha hb
+    obtain ⟨e1, e2⟩ := herr (i : ℚ) (j : ℚ)
+    obtain ⟨hn1, hn2⟩ := hnoise p hp i j hn
+    have k := near_node_kept z1 a1 b1 p.pos i j tol kappa (eps + d) htol hd1 hk hkp
+      (tri _ _ _ _ _ hn1 (abs_le_d _ d _ hd e1 hbound)) (tri _ _ _ _ _ hn2 (abs_le_d _ d _ hd e2 hbound)) ht ha hb
+    constructor
+    · unfold selBy
+      rw [Bool.and_eq_true]
+      exact ⟨(hW p).mpr hw, k.1⟩
+    · exact k.2
+  · intro p _ i y kappa d eta hn1 hn2 hkp hd hk hbound he0 he2 heta hfar
+    obtain ⟨e1, e2⟩ := herr ((i : ℚ) + 1 / 2) y
+    have k := near_half_cell_rejected z1 a1 b1 p.pos i y tol kappa (eps + d) eta hd1 hk hkp
+      (tri _ _ _ _ _ hn1 (abs_le_d _ d _ hd e1 hbound)) (tri _ _ _ _ _ hn2 (abs_le_d _ d _ hd e2 hbound)) he0 he2 heta hfar
+    unfold selBy
+    unfold ix
+    rw [k, Bool.and_false]
+  · intro p _ j x kappa d eta hn1 hn2 hkp hd hk hbound he0 he2 heta hfar
+    obtain ⟨e1, e2⟩ := herr x ((j : ℚ) + 1 / 2)
+    have k := near_half_cell_rejected_second z1 a1 b1 p.pos j x tol kappa (eps + d) eta hd1 hk hkp
+      (tri _ _ _ _ _ hn1 (abs_le_d _ d _ hd e1 hbound)) (tri _ _ _ _ _ hn2 (abs_le_d _ d _ hd e2 hbound)) he0 he2 heta hfar
+    unfold selBy
+    unfold ix
+    rw [k, Bool.and_false]
+
 end C05
